@@ -844,6 +844,11 @@ $GEN{$NG(a int)}{int}{
 	for k := range $NGI[int](2) {
 		$YIELD{int(k) + 40}
 	}
+	var box any
+	for box = range 2 {
+		$YIELD{box.(int) + 60}
+	}
+	$YIELD{box.(int)}
 	$YIELD{int(gi) + int(i8) + r + int(u) + int(d) + lv.Int()}
 	$RET
 }`, entries: []*Entry{drive("$NG", "int", 1, [][]int{{0}, {1}})}},
